@@ -1,21 +1,31 @@
 #!/bin/bash
 # Offline setup: full .vo build of the Coq development and a warm build of every harness.
+# Exit status: 0 when everything the MANIFEST claims (tools/ready.txt) builds; files of properties
+# that are still being worked on (not claimed) are built too (make -k) but cannot fail the setup.
 set -u
 cd "$(dirname "$0")"
 export GOFLAGS=-mod=mod GOPROXY=off GOSUMDB=off GOTOOLCHAIN=local
 python3 - <<'PY'
-import sys
+import os, sys
 sys.path.insert(0, "tools")
 import vlib, props
-ok, out = vlib.coq_build([])
+ready = set(open("tools/ready.txt").read().split())
+ok_all, out = vlib.coq_build([])
 print(out[-1500:])
 bad = 0
 for pid, c in sorted(props.PROPS.items()):
+    vo = os.path.join(vlib.COQ, c["props"][:-2] + ".vo")
+    tie = os.path.join(vlib.COQ, "Tie", pid + ".v")
+    built = os.path.exists(vo) and (not os.path.exists(tie) or os.path.exists(tie[:-2] + ".vo"))
+    print("coq", pid, "ok" if built else "NOT BUILT", "" if pid in ready else "(not claimed)")
+    if pid in ready and not built:
+        bad += 1
     if "harness" not in c:
         continue
     extra = c["extra_replace"]() if c.get("extra_replace") else None
     hok, hout, _ = vlib.build_harness(c["harness"], c.get("shims", []), c.get("tags", "verif"), extra)
-    print("harness", c["harness"], "ok" if hok else "FAILED\n" + hout[-1500:])
-    bad += 0 if hok else 1
-sys.exit(0 if ok and not bad else 1)
+    print("harness", c["harness"], "ok" if hok else "FAILED\n" + hout[-1500:], "" if pid in ready else "(not claimed)")
+    if pid in ready and not hok:
+        bad += 1
+sys.exit(0 if not bad else 1)
 PY
